@@ -119,7 +119,7 @@ class Model:
         for s in adj:
             if s in color:
                 continue
-            stack = [(s, iter(sorted(adj[s])))]
+            stack = [(s, iter(sorted(adj[s], key=repr)))]
             color[s] = 1
             while stack:
                 n, it = stack[-1]
@@ -128,7 +128,7 @@ class Model:
                         return False
                     if y not in color:
                         color[y] = 1
-                        stack.append((y, iter(sorted(adj[y]))))
+                        stack.append((y, iter(sorted(adj[y], key=repr))))
                         break
                 else:
                     color[n] = 2
@@ -147,7 +147,8 @@ class Model:
 
 @st.composite
 def wbs_spec(draw, max_tasks=8, min_tasks=0, hier_cycles=False, min_start=True, milestones=True,
-             summary_links=True, est_pool=None, names=None, palette_max=3, min_start_pool=None, min_start_rate=5, lookalike_ids=False):
+             summary_links=True, est_pool=None, names=None, palette_max=3, min_start_pool=None, min_start_rate=5, lookalike_ids=False,
+             summary_milestones=False):
     n = draw(st.integers(min_tasks, max_tasks))
     ids = draw(st.permutations(list(range(1, n + 1))))
     tasks = []
@@ -179,6 +180,8 @@ def wbs_spec(draw, max_tasks=8, min_tasks=0, hier_cycles=False, min_start=True, 
     for t in tasks:
         if milestones and not children[t['id']] and draw(st.integers(0, 9)) == 0:
             t['milestone'] = True
+        elif summary_milestones and children[t['id']] and draw(st.integers(0, 11)) == 0:
+            t['milestone'] = True       # the flag on a task with children: it stays a summary task
     rank = {t: i for i, t in enumerate(draw(st.permutations(list(ids))))}
     links = []
     if n >= 2:
@@ -241,6 +244,8 @@ def relabel(spec, mp):
     spec['links'] = [[f(u), f(v)] for u, v in spec['links']]
     for e in spec.get('ext', []):
         e['succ'] = [f(x) for x in e['succ']]
+        if e.get('pred'):
+            e['pred'] = [f(x) for x in e['pred']]
     return spec
 
 
@@ -278,8 +283,16 @@ def build(spec, wbs_kwargs=None):
         objs[v].predecessors.append(objs[u])
     ext = {}
     for e in spec.get('ext', []):
-        x = Task(e['id'], 'X%s' % e['id'], start=dt(e.get('start')), end=dt(e.get('end')))
+        x = Task(e['id'], 'X%s' % e['id'], start=dt(e.get('start')), end=dt(e.get('end')), milestone=bool(e.get('milestone')))
         ext[e['id']] = x
+        for a in e.get('pred', []):
+            # the outside task itself waits for a member: a chain that leaves the WBS and comes back
+            x.predecessors.append(objs[a])
+        if e.get('ext_pred'):
+            # ... and for an undated task of its own project
+            q = Task('q%s' % e['id'], 'Q', estimate=5)
+            x.predecessors.append(q)
+            ext['q%s' % e['id']] = q
         if e.get('in_wbs'):
             # the outside predecessor is a member of another project (it keeps its WBS alive through Task.wbs)
             WBS().roots.append(x)
@@ -321,7 +334,7 @@ def calc_task_class():
 @st.composite
 def calendar_spec(draw, dead=False, backward=False, tod=False):
     kinds = ['default', 'weekly', 'weekly', 'weeklydict', 'direct_or_weekly', 'scaled', 'minus', 'bounded',
-             'sum', 'fixed', 'div', 'applied']
+             'sum', 'fixed', 'div', 'applied', 'handover', 'vacation']
     if tod:
         # validity bounds with a time of day (crash-freedom only: "that day's capacity" has two values here)
         kinds = ['bounded_tod', 'fixed_tod']
@@ -336,6 +349,14 @@ def calendar_spec(draw, dead=False, backward=False, tod=False):
         return ['fixed_tod', units, draw(st.integers(-5, 38)), draw(st.sampled_from([9, 13, 23])), draw(st.one_of(st.none(), st.integers(5, 45)))]
     if kind == 'default':
         return ['default']
+    if kind == 'handover':
+        # one calendar valid up to a midnight (the way the README writes bounds: end=datetime(y, m, d)), another one afterwards:
+        # the bound lies inside the planning range (forward: days 1-15, backward: days 15-40)
+        k = draw(st.integers(15, 40)) if backward else draw(st.integers(1, 15))
+        return ['handover', days, units, k, sorted(draw(st.sets(st.integers(0, 6), min_size=1))), draw(st.sampled_from([8, 4, 2.5, 24]))]
+    if kind == 'vacation':
+        a = draw(st.integers(15, 38)) if backward else draw(st.integers(0, 12))
+        return ['vacation', days, units, a, draw(st.integers(0, 4))]
     if kind == 'weekly':
         return ['weekly', days, units]
     if kind == 'weeklydict':
@@ -417,6 +438,12 @@ def make_calendar(cs, handles=None):
         return (_direct(cs[3], handles) | WeeklyCalendar(days=list(cs[1]), units_per_day=cs[2])).apply(lambda u: None if u is None else u * f)
     if k == 'fixed':
         return FixedCalendar(cs[1])
+    if k == 'handover':
+        return WeeklyCalendar(days=list(cs[1]), units_per_day=cs[2], end=BASE + timedelta(days=cs[3])) | \
+            WeeklyCalendar(days=list(cs[4]), units_per_day=cs[5], start=BASE + timedelta(days=cs[3] + 1))
+    if k == 'vacation':
+        return WeeklyCalendar(days=list(cs[1]), units_per_day=cs[2]) - \
+            FixedCalendar(cs[2], BASE + timedelta(days=cs[3]), BASE + timedelta(days=cs[3] + cs[4]))
     if k == 'bounded_tod':
         start = BASE + timedelta(days=cs[3], hours=cs[4])
         end = None if cs[5] is None else BASE + timedelta(days=cs[3] + cs[5], hours=12)
@@ -460,6 +487,10 @@ def min_positive_capacity(cs):
         return min([x for x in cs[3].values() if x > 0] + [cs[2]]) * cs[4]
     if k == 'fixed':
         return cs[1] or 8
+    if k == 'handover':
+        return min(cs[2], cs[5]) or 8
+    if k == 'vacation':
+        return cs[2] or 8
     return 8
 
 
